@@ -111,7 +111,7 @@ int main(void)
       VF_ASSERT(vf_stream_pos == total, "C15: exactly the message's bytes were consumed");
       VF_ASSERT(upd_calls == 1, "C15: receipt recorded once");
     }
-#if L >= 23 && TPL != 3       /* the shortest message has 23 bytes: below that (and for the digit-run template) only the error outcomes are reachable */
+#if L >= 23 && TPL != 3 && TPL != 5   /* the shortest message has 23 bytes: below that (and for the digit-run and long-BeginString templates) only the error outcomes are reachable */
     VF_REACH();
 #endif
   } else {
